@@ -261,22 +261,71 @@ def writer_string_tables(F):
 
 
 def writer_escape_spelling(F):
-    """second loop of write_string: spelling of an escaped byte: {byte: spelled byte} exceptions, identity otherwise."""
+    """second loop of write_string: spelling of an escaped byte: {byte: spelled byte} exceptions, identity otherwise.
+    Looks at the one-element write that follows each backslash literal: its element is a constant (that spelling, for the
+    byte values that reach the write), the byte itself, or a temporary chosen between the two on different paths."""
     b = F.fn("Writer::write_string")
     bv = ByteVar(F, b, named_var(b, "byte", 1))
     R = bv.reach_sets()
     exc = {}
-    # the temp holding `if byte == b'\r' { b'r' } else { byte }`
-    for l in range(len(b.locals)):
-        defs = [d for d in b.defs.get(l, []) if d[2] == "rv"]
-        if len(defs) > 1 and b.lty(l) == "u8" and any(d[3]["k"] == "use" and bv._as_var(d[3]["o"]) for d in defs):
-            for d in defs:
-                k = op_const(d[3]["o"]) if d[3]["k"] == "use" else None
-                if k is not None and const_int(k) is not None:
-                    for v in R.get(d[0], frozenset()):
-                        exc[v] = const_int(k) & 0xFF
-    # backslash literal precedes
-    bs = [c for c in lib.calls_named(b, r"io::Write::write_all$") if lib._const_bytes_through(b, c.args[1]) == b"\\"]
+    writes = lib.calls_named(b, r"io::Write::write_all$")
+    bs = [c for c in writes if lib._const_bytes_through(b, c.args[1]) == b"\\"]
+    wbb = {c.bb for c in writes}
+
+    def element(c):
+        o = c.args[1]
+        for _ in range(6):
+            p = op_place(o)
+            if p is None:
+                return None
+            d = b.single_def(p["l"])
+            if d is None or d[2] != "rv":
+                return None
+            rv = d[3]
+            if rv["k"] in ("use", "cast"):
+                o = rv["o"]
+            elif rv["k"] == "ref":
+                o = {"c": {"l": rv["p"]["l"], "p": []}}
+            elif rv["k"] == "agg" and rv["kind"].get("a") == "array" and len(rv["ops"]) == 1:
+                return rv["ops"][0]
+            else:
+                return None
+        return None
+    for c0 in bs:
+        # the next write on each path
+        seen, work = set(), [c0.to] if c0.to is not None else []
+        while work:
+            x = work.pop()
+            if x in seen:
+                continue
+            seen.add(x)
+            if x in wbb:
+                for c in writes:
+                    if c.bb != x:
+                        continue
+                    kb = lib._const_bytes_through(b, c.args[1])
+                    if kb is not None and len(kb) == 1 and kb != b"\\":
+                        for v in R.get(c.bb, frozenset()):
+                            exc[v] = kb[0]
+                        continue
+                    e = element(c)
+                    if e is None:
+                        continue
+                    k = op_const(e)
+                    if k is not None and const_int(k) is not None:
+                        for v in R.get(c.bb, frozenset()):
+                            exc[v] = const_int(k) & 0xFF
+                    elif not bv._as_var(e):
+                        q = op_place(e)
+                        for d in (b.defs.get(q["l"], []) if q is not None and not q["p"] else []):
+                            if d[2] == "rv" and d[3]["k"] == "use":
+                                kk = op_const(d[3]["o"])
+                                if kk is not None and const_int(kk) is not None:
+                                    for v in R.get(d[0], frozenset()):
+                                        exc[v] = const_int(kk) & 0xFF
+                continue
+            work.extend(b.succ[x])
+    exc = {v: k for v, k in exc.items() if v != k}
     return b, exc, len(bs), bv
 
 
